@@ -245,6 +245,9 @@ func (c *conn) send(ctx context.Context, msg *kmip.RequestMessage) error {
 //   - error: An error if the context is canceled, the connection is closed, or another issue occurs.
 func (c *conn) recv(ctx context.Context) (*kmip.ResponseMessage, error) {
 	if err := c.checkAvailable(ctx); err != nil {
+		// The request has already been sent. Close the connection so that its
+		// response can never be delivered to a later call.
+		_ = c.terminate(io.ErrClosedPipe)
 		return nil, err
 	}
 	select {
